@@ -310,6 +310,10 @@ def expect_reject(ctx, spec_dir, module, path, mutate, what, cfg=None, libs=()):
     """B3: a corrupted copy of a trace must be rejected, otherwise the binding is vacuous."""
     evs = read_ndjson(path)
     if not mutate(evs):
+        if ctx.violations or ctx.known_hits:
+            # the run already deviates from the specification; the self-test is moot for this corruption
+            ctx.extra.setdefault("b3_skipped", []).append(what)
+            return
         raise ToolError("B3 could not find an event to corrupt in " + path)
     p2 = path + ".corrupt"
     write_ndjson(p2, evs)
